@@ -160,10 +160,10 @@ def bare_gear(c, cls):
 
 # ---- building a simulated powertrain ------------------------------------------------------------------------------------
 
-def simulated(c, gear_cls, hist, gear_data=None):
+def simulated(c, gear_cls, hist, gear_data=None, with_current=True):
     """real Powertrain (motor, one gear of class gear_cls) with `hist` recorded instants of symbolic samples"""
     import gearpy.powertrain as PT
-    b = CM.build_motor(c, RL._Quiet(), True)
+    b = CM.build_motor(c, RL._Quiet(), with_current)
     if b is None:
         return None
     motor = b[0]
@@ -196,11 +196,11 @@ def simulated(c, gear_cls, hist, gear_data=None):
 
 # ---- C12 (reset/rerun) and C17: Powertrain.reset ------------------------------------------------------------------------------
 
-def job_reset(gear_cls, hist):
+def job_reset(gear_cls, hist, with_current=True):
     def body(c, O):
         if c.concrete:
             return
-        s = simulated(c, gear_cls, hist)
+        s = simulated(c, gear_cls, hist, with_current=with_current)
         if s is None:
             return
         pt, motor, gear, times, samples = s
@@ -239,18 +239,18 @@ def job_reset(gear_cls, hist):
                 L.Via([z3.Implies(z3.Not(used_controller.term), p0 == pwm_prerun.term), sym.term_of(motor.pwm) == p0],
                       sym.term_of(motor.pwm) == pwm_prerun.term), props=("C12",),
                 note="reset restores the first RECORDED duty cycle, i.e. the one chosen by the controller at t=0")
-    return Job(f"powertrain.reset[{gear_cls},{hist} instants]", body, ("C12", "C17", "C11"),
+    return Job(f"powertrain.reset[{gear_cls},{hist} instants{'' if with_current else ',motor without current data'}]", body, ("C12", "C17", "C11"),
                functions=["gearpy.powertrain.Powertrain.reset"], expect_covers=("returns",),
                meta=dict(family="powertrain-reset", cls=gear_cls, hist=hist))
 
 
 # ---- C18: snapshot ----------------------------------------------------------------------------------------------------------
 
-def job_snapshot(gear_cls, hist, variables, units, tag):
+def job_snapshot(gear_cls, hist, variables, units, tag, with_current=True):
     def body(c, O):
         if c.concrete:
             return
-        s = simulated(c, gear_cls, hist)
+        s = simulated(c, gear_cls, hist, with_current=with_current)
         if s is None:
             return
         pt, motor, gear, times, samples = s
@@ -297,18 +297,18 @@ def job_snapshot(gear_cls, hist, variables, units, tag):
                         goals.append(L.eq(L.mul(ys[k], AU.fac(KIND_OF[var], u)), ser[k].si()))   # sample converted to the unit
                 goals.append(L.eq(t, target.si()))
             O.prove(f"snapshot:cell=interpolation-of-the-recorded-samples-in-the-requested-unit", L.And(*goals), props=("C18",))
-    return Job(f"powertrain.snapshot[{gear_cls},{hist} instants,{tag}]", body, ("C18", "C17"),
+    return Job(f"powertrain.snapshot[{gear_cls},{hist} instants,{tag}{'' if with_current else ',motor without current data'}]", body, ("C18", "C17"),
                functions=["gearpy.powertrain.Powertrain.snapshot"], expect_covers=("returns",),
                meta=dict(family="snapshot", cls=gear_cls, hist=hist, variables=list(variables) if variables else None,
                          thorough_only=tag.startswith("subset#")))
 
 
-def job_export(gear_cls, hist, units, time_unit):
+def job_export(gear_cls, hist, units, time_unit, with_current=True):
     def body(c, O):
         if c.concrete:
             return
         import gearpy.utils.export as EX
-        s = simulated(c, gear_cls, hist)
+        s = simulated(c, gear_cls, hist, with_current=with_current)
         if s is None:
             return
         pt, motor, gear, times, samples = s
@@ -338,7 +338,7 @@ def job_export(gear_cls, hist, units, time_unit):
                         goals.append(L.eq(L.mul(got[k], AU.fac(KIND_OF[v], units[UNIT_ARG[v]])), ser[k].si()))
             O.prove("export:one-row-per-instant;every-sample-converted-to-the-requested-unit", L.And(*goals), props=("C18",))
             O.prove("export:written-as-csv-without-index", fr.csv == ("out/x.csv", False), props=("C18",))
-    return Job(f"powertrain.export[{gear_cls},{hist} instants,time in {time_unit}]", body, ("C18", "C17"),
+    return Job(f"powertrain.export[{gear_cls},{hist} instants,time in {time_unit}{'' if with_current else ',motor without current data'}]", body, ("C18", "C17"),
                functions=["gearpy.utils.export.export_time_variables"], expect_covers=("returns",),
                meta=dict(family="export", cls=gear_cls, hist=hist))
 
@@ -452,6 +452,7 @@ def all_jobs(exact_tables=None):
     for cls in ("SpurGear", "HelicalGear", "WormWheel", "WormGear", "Flywheel"):
         for hist in (1, 2, 3):
             jobs.append(job_reset(cls, hist))
+        jobs.append(job_reset(cls, 2, with_current=False))
     for cls in ("SpurGear", "HelicalGear", "WormWheel", "WormGear", "Flywheel"):
         for tag, vs in subsets_quick():
             if vs is not None:
@@ -476,5 +477,7 @@ def all_jobs(exact_tables=None):
         jobs.append(job_snapshot(cls, 1, None, UNITS_A, "all(default),single-instant"))
         jobs.append(job_export(cls, 2, UNITS_A, "sec"))
         jobs.append(job_export(cls, 3, UNITS_B, "ms"))
+        jobs.append(job_snapshot(cls, 2, None, UNITS_B, "all(default),other-units", with_current=False))
+        jobs.append(job_export(cls, 2, UNITS_B, "ms", with_current=False))
         jobs.append(job_export_wrapper(cls))
     return jobs
